@@ -99,6 +99,11 @@ pub fn spec_frame(bytes: &[u8]) -> Option<(i32, Vec<(u8, String)>)> {
         return None;
     }
     let text = std::str::from_utf8(bytes).ok()?;
+    Some(spec_frame_text(text))
+}
+
+/// the same transcription on a text (no BOM handling at all).
+pub fn spec_frame_text(text: &str) -> (i32, Vec<(u8, String)>) {
     let mut lines: Vec<&str> = text.split('\n').map(str::trim_end).collect();
     if text.ends_with('\n') || text.is_empty() {
         lines.pop();
@@ -135,7 +140,38 @@ pub fn spec_frame(bytes: &[u8]) -> Option<(i32, Vec<(u8, String)>)> {
         }
         calls.push((section_idx(sec), (*l).to_owned()));
     }
-    Some((version, calls))
+    (version, calls)
+}
+
+/// the same transcription on a list of lines (no BOM, LF-joined): the indices of the lines that
+/// reach a section parser, in order. `None` if the version slot makes the mapping ambiguous.
+pub fn spec_frame_idx(lines: &[String]) -> Option<Vec<usize>> {
+    let ls: Vec<&str> = lines.iter().map(|l| l.trim_end()).collect();
+    let mut i = 0;
+    while i < ls.len() && ls[i].is_empty() {
+        i += 1;
+    }
+    if i < ls.len() {
+        if let Some(rest) = ls[i].strip_prefix("osu file format v") {
+            let tail = rest.rsplit('v').next().unwrap_or(rest).trim();
+            if matches!(tail.parse::<i32>(), Ok(n) if n != i32::MIN) {
+                i += 1;
+            }
+        }
+    }
+    let mut calls = Vec::new();
+    let mut in_section = false;
+    for (k, l) in ls.iter().enumerate().skip(i) {
+        if Section::try_from_line(l).is_some() {
+            in_section = true;
+            continue;
+        }
+        if !in_section || l.is_empty() || l.trim_start().starts_with("//") {
+            continue;
+        }
+        calls.push(k);
+    }
+    Some(calls)
 }
 
 pub fn prop_frame(bytes: &[u8]) -> String {
